@@ -41,7 +41,7 @@ def run(tier):
                               'omission clause (optimistic budget of the treatment group or of an admissible sub-group)',
                               want=('tables', 'components', 'exhaustive'), extra_cases=budget_bites,
                               assumptions=['feasible = over the geos admitted to the search (documented search space)',
-                                           'score tuples free of NaN (total order); cases with score ties are skipped'])
+                                           'score tuples free of NaN (total order); cases with score ties are skipped'], gen_targets=searchfam.GEN_TARGETS_EXH)
 
 
 def replay(data):
